@@ -409,7 +409,8 @@ class Engine(object):
 
     PI = Fraction(math.pi)
     # cos(0.1) bracketed by rationals 1e-12 apart (SMALL_ANGLE = 0.1 is the only angle constant the library compares with)
-    COS_BRACKETS = {Fraction(0.1): (Fraction(995004165278, 10 ** 12), Fraction(995004165279, 10 ** 12))}
+    COS_BRACKETS = {Fraction(0.1): (Fraction(995004165278, 10 ** 12), Fraction(995004165279, 10 ** 12)),
+                    Fraction(math.pi - 0.1): (Fraction(-995004165279, 10 ** 12), Fraction(-995004165278, 10 ** 12))}
 
     def acos(self, c):
         """angle token for math.acos(c) (assumption A3)"""
